@@ -221,11 +221,15 @@ fn hook_validate(name: String, params: Value) -> Scenario {
             crate::world::Ob::Wire(p) => format!("{:?}", p.pid()),
             _ => String::new(),
         }).filter(|s| !s.is_empty()).collect();
+        // The hook presets COUNTERS. An implementation that allocates differently (the lowest free
+        // identifier, say) keeps the hook as a hint where to start; the two runs then show different
+        // identifiers - both runs are still judged by the model (non-zero, unique among outstanding),
+        // only the differential validation of the hook has nothing to say for such an implementation.
         if !a.dead && !b.dead && tail_a != tail_b {
-            panic!(
-                "MACHINERY: hook verif_set_ids does not reproduce the honest state: {:?} vs {:?}",
-                tail_a, tail_b
-            );
+            a.m.hits.push("hook-differs-from-honest-run");
+            if std::env::var("PV_SHOW_NOTES").is_ok() {
+                eprintln!("note: verif_set_ids does not reproduce the honest run: {:?} vs {:?}", tail_a, tail_b);
+            }
         }
         let mut v = std::mem::take(&mut b.violations);
         a.violations.append(&mut v);
